@@ -99,7 +99,7 @@ func registerIntrinsics(in *Interp) {
 
 	// ----- sync / atomic / runtime -----
 	for _, n := range []string{
-		"(*sync.Mutex).Lock", "(*sync.Mutex).Unlock", "(*sync.RWMutex).Lock", "(*sync.RWMutex).Unlock",
+		"(*sync.RWMutex).Lock", "(*sync.RWMutex).Unlock",
 		"(*sync.RWMutex).RLock", "(*sync.RWMutex).RUnlock",
 		"runtime.SetFinalizer", "runtime.GC", "runtime.KeepAlive", "runtime.Gosched",
 		"(*strings.Builder).copyCheck", "internal/race.Enable", "internal/race.Disable",
@@ -111,6 +111,8 @@ func registerIntrinsics(in *Interp) {
 			r[n] = nop
 		}
 	}
+	r["(*sync.Mutex).Lock"] = func(in *Interp, fr *Frame, a []V) V { in.mutexLock(a[0].(Ptr)); return nil }
+	r["(*sync.Mutex).Unlock"] = func(in *Interp, fr *Frame, a []V) V { in.mutexUnlock(a[0].(Ptr)); return nil }
 	r["(*sync.Mutex).TryLock"] = func(in *Interp, fr *Frame, a []V) V { return TrueT }
 	r["(*sync.Once).Do"] = func(in *Interp, fr *Frame, a []V) V {
 		p := a[0].(Ptr)
